@@ -32,4 +32,4 @@ def check(run):
     reflection_bounded(run)
     run.verify_functions(TARGETS + RECOGNIZER)
     from checks.main import nodecross_bounded
-    nodecross_bounded(run)
+    nodecross_bounded(run, only=['UnknownNode.require_mapping', 'UnknownNode.require_sequence', 'UnknownNode.require_attribute_value', 'UnknownNode.require_attribute_value_not'])
